@@ -871,31 +871,49 @@ theorem get_kept (W : List Nat) (cfg : Cfg) (s : State P) (k : Nat) : Kept W s.m
   · rw [hg]; exact onHit_kept W cfg s k e he
 
 theorem insertCore_map (cfg : Cfg) (s : State P) (k : Nat) (e : Entry) (td : Option Nat) (full : Bool) :
-    ∃ e', e'.vid = e.vid ∧ (s.insertCore cfg k e td full).map = put s.map k e' := by
+    ∃ t, (s.insertCore cfg k e td full).map = put s.map k { e with timer := t } := by
   cases hw : s.aux[cfg.shardOf k]?.bind (·.wheel) with
   | none =>
-    refine ⟨e, rfl, ?_⟩
+    refine ⟨e.timer, ?_⟩
     unfold State.insertCore
     simp only [hw]
     cases lookup s.map k <;> cases full <;> rfl
   | some w =>
     cases td with
     | none =>
-      refine ⟨e, rfl, ?_⟩
+      refine ⟨e.timer, ?_⟩
       unfold State.insertCore
       simp only [hw]
       cases lookup s.map k <;> cases full <;> rfl
     | some d =>
-      refine ⟨{ e with timer := some (w.schedule k d).2 }, rfl, ?_⟩
+      refine ⟨some (w.schedule k d).2, ?_⟩
+      unfold State.insertCore
+      simp only [hw, modAux_map]
+      cases lookup s.map k <;> cases full <;> rfl
+
+theorem insertCore_now (cfg : Cfg) (s : State P) (k : Nat) (e : Entry) (td : Option Nat) (full : Bool) :
+    (s.insertCore cfg k e td full).now = s.now := by
+  cases hw : s.aux[cfg.shardOf k]?.bind (·.wheel) with
+  | none =>
+    unfold State.insertCore
+    simp only [hw]
+    cases lookup s.map k <;> cases full <;> rfl
+  | some w =>
+    cases td with
+    | none =>
+      unfold State.insertCore
+      simp only [hw]
+      cases lookup s.map k <;> cases full <;> rfl
+    | some d =>
       unfold State.insertCore
       simp only [hw, modAux_map]
       cases lookup s.map k <;> cases full <;> rfl
 
 theorem insertCore_kept (W : List Nat) (cfg : Cfg) (s : State P) (k : Nat) (e : Entry) (td : Option Nat) (full : Bool)
     (hW : e.vid ∈ W) : Kept W s.map (s.insertCore cfg k e td full).map := by
-  obtain ⟨e', h1, h2⟩ := insertCore_map cfg s k e td full
+  obtain ⟨t, h2⟩ := insertCore_map cfg s k e td full
   rw [h2]
-  exact Kept.put (fun _ _ => Or.inr (by rw [h1]; exact hW))
+  exact Kept.put (fun _ _ => Or.inr hW)
 
 theorem multiInsert_kept (W : List Nat) (cfg : Cfg) :
     ∀ (items : List (Nat × Nat × Nat)) (s : State P), (∀ it ∈ items, it.2.1 ∈ W) →
@@ -1105,5 +1123,48 @@ theorem toSnapshot_served (cfg : Cfg) (ops : PolicyOps P) (o : Oracle) (s : Stat
   have := snapshotOf_served cfg (s.flush cfg ops o).map (s.flush cfg ops o).now q hq
   rw [hf.2] at this
   exact this.mono hf.1
+
+/-! ### shapes of `stepOp` branches used by `Fv.Props.C12` -/
+theorem hold_ret (cfg : Cfg) (ops : PolicyOps P) (p0 : P) (o : Oracle) (s : State P) (k : Nat) :
+    (stepOp cfg ops p0 o s (.hold k)).2 = .val (s.resetLogs.get cfg k).2 := by
+  simp only [stepOp]
+  generalize s.resetLogs.get cfg k = r
+  obtain ⟨s', v⟩ := r
+  cases v <;> rfl
+
+theorem hold_kept (W : List Nat) (cfg : Cfg) (ops : PolicyOps P) (p0 : P) (o : Oracle) (s : State P) (k : Nat) :
+    Kept W s.map (stepOp cfg ops p0 o s (.hold k)).1.map := by
+  simp only [stepOp]
+  have hg := get_kept W cfg s.resetLogs k
+  generalize s.resetLogs.get cfg k = r at hg
+  obtain ⟨s', v⟩ := r
+  cases v with
+  | none => exact hg
+  | some v =>
+    dsimp only at hg ⊢
+    refine hg.trans ?_
+    split
+    · next e he =>
+      refine Kept.put (fun e0 h0 => ?_)
+      rw [he] at h0; cases h0
+      exact Or.inl rfl
+    · exact Kept.refl _ _
+
+theorem multiget_map (cfg : Cfg) (ops : PolicyOps P) (p0 : P) (o : Oracle) (s : State P) (a : Bool) (ks : List Nat) :
+    (stepOp cfg ops p0 o s (.multiget a ks)).1.map =
+      (if a then multigetAsync cfg ops s.resetLogs (groupByShard cfg ks) []
+       else multigetSync cfg s.resetLogs ks []).1.map := by
+  simp only [stepOp]
+  generalize (if a = true then multigetAsync cfg ops s.resetLogs (groupByShard cfg ks) []
+       else multigetSync cfg s.resetLogs ks []) = r
+  obtain ⟨s', found⟩ := r
+  dsimp only
+  split <;> rfl
+
+theorem nullOps_noEvict : ∀ k, ¬ EvictNominates nullOps k := by
+  rintro k ⟨p, n, hint, p', vs, freed, h, hk⟩
+  simp [nullOps] at h
+  rw [h.1] at hk
+  cases hk
 
 end Fv.Cache
